@@ -372,7 +372,7 @@ func directedExecutorScenarios() []xScenario {
 func sameOwnerScenarios() []xScenario {
 	var out []xScenario
 	for v := 0; v < 10; v++ {
-		k := 2 + v%3      // readers per pair
+		k := []int{2, 4, 6}[v%3] // readers per pair (one map bucket holds 8 entries: k readers + the task itself)
 		pairs := 16 / (k + 2)
 		if pairs > 4 {
 			pairs = 4
@@ -389,19 +389,18 @@ func sameOwnerScenarios() []xScenario {
 			if v%2 == 1 {
 				a, b = b, a
 			}
-			owners = append(owners, add(map[string]string{a: "w", b: []string{"w", "a", "all"}[v%3]}))
+			o := add(map[string]string{a: "w", b: []string{"w", "a", "all"}[v%3]})
+			owners = append(owners, o)
+			sc.Script = append(sc.Script, xStep{"run", 0})
+			if v >= 5 { // the owner has finished before its readers are queued
+				sc.Script = append(sc.Script, xStep{"gate", o})
+			}
 			for r := 0; r < k; r++ {
 				readers = append(readers, add(map[string]string{b: "r"}))
+				sc.Script = append(sc.Script, xStep{"run", 0})
 			}
 			ts = append(ts, add(map[string]string{a: "r", b: []string{"w", "aw", "a"}[(v/2)%3]}))
-		}
-		for range sc.Keys {
 			sc.Script = append(sc.Script, xStep{"run", 0})
-			if v >= 5 && len(sc.Script) == len(owners) { // some variants: owners finish while the rest is being queued
-				for _, o := range owners[:1] {
-					sc.Script = append(sc.Script, xStep{"gate", o})
-				}
-			}
 		}
 		for _, o := range owners {
 			sc.Script = append(sc.Script, xStep{"gate", o})
@@ -409,8 +408,9 @@ func sameOwnerScenarios() []xScenario {
 		for _, t := range ts { // release the read+write tasks while the readers are still held
 			sc.Script = append(sc.Script, xStep{"gate", t})
 		}
-		for _, r := range readers {
-			sc.Script = append(sc.Script, xStep{"gate", r})
+		// readers finish latest-queued first: the read+write task may have registered on the later ones only
+		for i := len(readers) - 1; i >= 0; i-- {
+			sc.Script = append(sc.Script, xStep{"gate", readers[i]})
 		}
 		out = append(out, sc)
 	}
